@@ -110,11 +110,11 @@ def one_centre(chk, repo, rule):
                 break
             S.stmt(s_, st)
         it = S.k(il.iter, st)
-        want_it = ('call', ('name', 'set'), (('comp', 'gen',
+        want_it = ('comp', 'set',
                    ('sub', ('bv', 1), ('num', Fraction(0))),
                    ((('bv', 1), ('call', ('attr', ('sub', ('bv', 0),
                     ('const', 'connectivity')), 'GetQueryMatches'),
-                    (('name', molp),), ()), ()),)),), ())
+                    (('name', molp),), ()), ()),))
         chk.ob(rule, it == want_it, SCH, il, key='centre=first-atom',
                what='the centre of a match is its first atom; the set of '
                     'centres comes from the pattern\'s own matches on this '
